@@ -171,9 +171,9 @@ UnquoteReplace(s) == ReplaceAll(PctUnquote(s), HI, REPL)
 \* application/x-www-form-urlencoded value decoding (parse_qs): "+" is a space, then unquote with errors=replace
 FormDecode(s) == UnquoteReplace(ReplaceAll(s, "+", " "))
 \* what a form-submitting client sends (quote_plus): every reserved byte percent-coded, space as "+"
-FormEncode(s) == ReplaceAll(PctQuote(ReplaceAll(s, "/", "%2F")), "%20", "+")
+FormEncode(s) == ReplaceAll(ReplaceAll(PctQuote(s), "/", "%2F"), "%20", "+")
 \* query component as a Gemini client sends it: percent-coded, space as %20
-QueryEncode(s) == PctQuote(s)
+QueryEncode(s) == ReplaceAll(PctQuote(s), "/", "%2F")
 
 QuoteLemma(s) == PctUnquote(PctQuote(s)) = s
 
